@@ -1,5 +1,5 @@
 """C17: every C++ member compiles when used (g++ and clang++, with and without the STL) and equals the C API for every keying path."""
-import os, re
+import os, re, json, glob, shutil, subprocess
 import build, common
 
 LEVEL = "exploration"
@@ -36,6 +36,127 @@ def public_members():
     return names
 
 
+def _stream(txt):
+    dec, i = json.JSONDecoder(), 0
+    while i < len(txt):
+        while i < len(txt) and txt[i].isspace():
+            i += 1
+        if i >= len(txt):
+            break
+        o, i = dec.raw_decode(txt, i)
+        yield o
+
+
+def declared_overloads(inc, defs):
+    """Every member function / constructor / destructor / namespace-level helper the C++ headers declare, one entry per overload, from clang's AST."""
+    d = os.path.join(build.BUILD, "run", "c17ast-%d" % os.getpid())
+    os.makedirs(d, exist_ok=True)
+    tu = os.path.join(d, "tu.cpp")
+    with open(tu, "w") as f:
+        f.write("".join("#include <ascon/%s>\n" % h for h in HEADERS))
+    p = subprocess.run(["clang++", "-std=c++11", "-fsyntax-only", "-Xclang", "-ast-dump=json", "-Xclang", "-ast-dump-filter=ascon"] + defs + inc + [tu], stdout=subprocess.PIPE, stderr=subprocess.PIPE)
+    shutil.rmtree(d, ignore_errors=True)
+    out = []
+
+    def walk_class(c, prefix, tmpl):
+        access = "private" if c.get("tagUsed") == "class" else "public"
+        for m in c.get("inner", []):
+            k = m["kind"]
+            if k == "AccessSpecDecl":
+                access = m["access"]
+            elif k in ("CXXMethodDecl", "CXXConstructorDecl", "CXXDestructorDecl", "CXXConversionDecl") and not m.get("isImplicit"):
+                out.append(dict(access=access, name=prefix + "::" + m["name"], type=m["type"]["qualType"], mangled=m.get("mangledName"), pure=m.get("pure", False),
+                                tmpl=tmpl, deleted=m.get("explicitlyDeleted", False)))
+
+    for t in _stream(p.stdout.decode()):
+        if t["kind"] == "NamespaceDecl" and t.get("name") == "ascon":
+            for m in t.get("inner", []):
+                k = m["kind"]
+                if k == "CXXRecordDecl" and m.get("completeDefinition"):
+                    walk_class(m, m["name"], False)
+                elif k == "ClassTemplateDecl":
+                    for x in m.get("inner", []):
+                        if x["kind"] == "CXXRecordDecl" and x.get("completeDefinition"):
+                            walk_class(x, m["name"], True)
+                elif k == "FunctionDecl":
+                    out.append(dict(access="public", name="::" + m["name"], type=m["type"]["qualType"], mangled=m.get("mangledName"), pure=False, tmpl=False, deleted=False))
+    return out
+
+
+def overload_census(ctx, nostl):
+    """Dynamic census: the harness translation units are run with function-level execution counts (gcov); every public overload the headers declare must have been executed.
+    (The by-name census above cannot tell overloads apart.)"""
+    label = "nostl" if nostl else "stl"
+    lib = build.build_lib("asm", no_stl=nostl)
+    inc, defs = list(lib["inc"]), (["-DASCON_NO_STL"] if nostl else [])
+    decl = declared_overloads(inc, defs)
+    if len([o for o in decl if o["access"] == "public"]) < 100:
+        raise RuntimeError("overload census: the AST walk found too few declarations (%d)" % len(decl))
+    d = os.path.join(build.BUILD, "run", "c17cov-%s-%d" % (label, os.getpid()))
+    shutil.rmtree(d, ignore_errors=True)
+    os.makedirs(d)
+    try:
+        hinc = ["-I" + os.path.join(common.VERIF, "harness"), "-I" + os.path.join(common.VERIF, "ref")]
+        objs = []
+        cmds = []
+        cpp = sorted(glob.glob(os.path.join(build.REPO, "src", "cplusplus", "*.cpp")))
+        for f in cpp + [os.path.join(common.VERIF, "harness", "c17.cpp")] + ([os.path.join(common.VERIF, "harness", "c20_ba.cpp")] if nostl else []):
+            o = os.path.join(d, os.path.basename(f)[:-4] + ".o")
+            cmds.append(["g++", "-std=c++11", "--coverage", "-O0", "-w"] + defs + hinc + inc + ["-I" + os.path.join(build.REPO, "src", "cplusplus"), "-c", f, "-o", o])
+            objs.append(o)
+        for f in ("harness/sysrand.c", "ref/ref.c", "harness/hx.c"):
+            if os.path.exists(os.path.join(common.VERIF, f)):
+                o = os.path.join(d, os.path.basename(f)[:-2] + "_c.o")
+                cmds.append(["gcc", "-O1", "-w"] + hinc + inc + ["-c", os.path.join(common.VERIF, f), "-o", o])
+                objs.append(o)
+        res = common.parallel(lambda c: subprocess.run(c, stdout=subprocess.PIPE, stderr=subprocess.STDOUT), cmds)
+        for c, r in zip(cmds, res):
+            if r.returncode:
+                ctx.fail("build-error:overload-census-" + label, r.stdout.decode()[-500:])
+                return
+        libobjs = [o for o in objs if os.path.basename(o) not in ("c17.o", "c20_ba.o")]
+        for main in ["c17.o"] + (["c20_ba.o"] if nostl else []):
+            exe = os.path.join(d, main[:-2])
+            r = subprocess.run(["g++", "--coverage", "-o", exe, os.path.join(d, main)] + libobjs + [lib["lib"]], stdout=subprocess.PIPE, stderr=subprocess.STDOUT)
+            if r.returncode:
+                ctx.fail("build-error:overload-census-" + label, r.stdout.decode()[-500:])
+                return
+            subprocess.run([exe] + (["2", "3"] if main == "c20_ba.o" else []), stdout=subprocess.DEVNULL, stderr=subprocess.DEVNULL, cwd=d, timeout=600)
+        gc = subprocess.run(["gcov", "--json-format", "--stdout"] + sorted(glob.glob(os.path.join(d, "*.gcda"))), stdout=subprocess.PIPE, stderr=subprocess.DEVNULL, cwd=d)
+        counts, dem = {}, {}
+        norm = lambda m: re.sub(r"([CD])[0-3]E", r"\1*E", m.replace("B5cxx11", ""))
+        for o in _stream(gc.stdout.decode()):
+            for f in o["files"]:
+                for g in f["functions"]:
+                    k = norm(g["name"])
+                    counts[k] = max(counts.get(k, 0), g["execution_count"])
+                    dem[k] = g["demangled_name"]
+        n = 0
+        for o in decl:
+            if o["access"] != "public" or o["pure"] or o["deleted"] or o["tmpl"]:
+                continue
+            n += 1
+            if not o["mangled"] or not counts.get(norm(o["mangled"])):
+                ctx.fail("cpp:overload-not-executed:%s:%s %s" % (label, o["name"], o["type"]), "the public overload %s %s is declared in the headers but never executed by the harness (extend harness/c17.cpp)" % (o["name"], o["type"]))
+        # class templates: the harness instantiates them explicitly, so every member exists in the object file; each must run in at least one instantiation
+        tm = {}
+        for k, v in counts.items():
+            m = re.match(r"ascon::(xofa?_with_output_length)<\d+ul>::(.*)$", dem[k])
+            if m:
+                key = m.group(1) + "::" + re.sub(r"<\d+ul>", "<N>", m.group(2))
+                tm[key] = max(tm.get(key, 0), v)
+        want = len([o for o in decl if o["tmpl"] and o["access"] == "public"])
+        if len(tm) < want:
+            ctx.fail("cpp:overload-not-executed:%s:templates" % label, "%d template members are declared, only %d exist in the harness object file" % (want, len(tm)))
+        for key, v in sorted(tm.items()):
+            n += 1
+            if not v:
+                ctx.fail("cpp:overload-not-executed:%s:%s" % (label, key), "the template member %s is never executed by the harness in any instantiation" % key)
+        ctx.stats["public_overloads_executed_" + label] = n
+    finally:
+        shutil.rmtree(d, ignore_errors=True)
+
+
 def run(ctx):
     src = open(os.path.join(common.VERIF, "harness", "c17.cpp")).read() + open(os.path.join(common.VERIF, "harness", "c20_ba.cpp")).read()
     members = public_members()
@@ -43,6 +164,8 @@ def run(ctx):
     ctx.stats["public_member_names"] = len(members)
     for n in missing:
         ctx.fail("cpp:member-not-exercised:" + n, "public C++ member '%s' declared in the headers is not used by the harness translation unit (extend harness/c17.cpp)" % n)
+    for nostl in (False, True):
+        overload_census(ctx, nostl)
     jobs = []
     for cc in ("gcc", "clang"):
         for nostl in (False, True):
